@@ -23,6 +23,15 @@ CHECKS["C19"] = dict(
     text="Exhaustive within the bound for merging (all caption lists up to length 5 quick / 9 thorough over two time keys: loop = closed form, idempotent, conserving; each list replayed on the real function for 1 and 3 languages) and sampled beyond it (lists up to 30, 1-3 languages); retiming is judged on a grid of skews and offsets around the drop boundary and on random dyadic (exact) and decimal (1 ns tolerance) skews, every observation accepted or rejected by TLC.",
     design="4 C19")
 
+CHECKS["C18"] = dict(
+    technique="TLA+ spec Geometry.tla: TLC enumerates every symbol string (MC_Geometry: DFA vs declarative grammar) and judges recorded ==/hash/parse/print/padding observations of pycaption.geometry (Trace_Geometry, exact BigNat rationals)",
+    text="Exhaustive within the bound for the size grammar (every string up to length 4 quick / 5 thorough over 13 symbols replayed through Size.from_string, Point.from_xml_attribute and Padding.from_xml_attribute; length 6 model-checked) and for equality/hash (all same-class pairs of a grid exhaustive in units, None-ness and alignment values); printing, re-parsing, padding shorthand and receiver immutability are sampled; every observation is accepted or rejected by TLC.",
+    design="4 C18")
+CHECKS["C13"] = dict(
+    technique="TLA+ spec Geometry.tla (section 5): TLC checks the design model of as_percentage_of / fit_to_screen / two-decimal printing against the requirement on the whole unit x value x video-size x option grid (MC_Rel) and judges the lengths actually written by DFXPWriter, SAMIWriter and WebVTTWriter at every layout level (Trace_Geometry)",
+    text="Exhaustive over the MC_Rel grid (5 units x values x layout parts x 5 video-size combinations x relativize x fit x 3 writers, plus origins/extents around the 90/95 clamp), each case replayed at every level the writer emits; random values beyond. Written lengths are tokenised by the harness and judged by TLC with exact rationals (|printed - exact| <= 1/200). Two open known findings (DFXP language-level layouts) are re-validated against the requirement with exactly that deviation enabled.",
+    design="4 C13")
+
 NOT_YET = {}
 
 
